@@ -91,12 +91,20 @@ def row(deco, arg):
         r = d(f)
         target = f
     else:
-        g = icontract.ensure(lambda result: True, enabled=True)(f)
+        if deco == "snapshotOverOld":
+            # below: an ENABLED postcondition that reads OLD (calling it without any snapshot is the user's error)
+            g = icontract.ensure(lambda result, OLD: True, enabled=True)(f)
+        else:
+            g = icontract.ensure(lambda result: True, enabled=True)(f)
         before = dict(vars(g))
         d = icontract.snapshot(lambda x: cond(), name="s", **kw)
         r = d(g)
         target = g
-    r(1)
+    try:
+        r(1)
+    except TypeError:
+        if deco != "snapshotOverOld":
+            raise
     after = dict(vars(target))
     return {"same": r is target, "attrs_added": sorted(set(after) - set(before)),
             "snap_list": len(getattr(target, "__postcondition_snapshots__", [])), "cond_calls": calls["cond"]}
@@ -150,13 +158,32 @@ def broken_before_call():
         except BaseException as e:  # noqa: B902
             res = type(e).__name__
         out[flavour] = [res, list(ran)]
+    # an explicitly enabled precondition that strengthens a base method without preconditions: refused at class creation
+    try:
+        class A(icontract.DBC):
+            def m(self, x):
+                return x
+
+        class B(A):
+            @icontract.require(lambda x: x > 0, enabled=True)
+            def m(self, x):
+                return x
+
+        try:
+            B().m(-1)
+            res = "created-and-accepted"
+        except icontract.ViolationError:
+            res = "created-and-enforced"
+    except TypeError:
+        res = "TypeError"
+    out["strengthening_override"] = [res, []]
     return out
 
 
 def main():
     cases = json.load(open(sys.argv[1]))
     out = {"debug": __debug__, "SLOW": bool(icontract.SLOW), "optimize": sys.flags.optimize, "table": {}, "obs": []}
-    for deco in ("require", "ensure", "snapshot", "invariant", "requireOnChecker", "ensureOnChecker",
+    for deco in ("require", "ensure", "snapshot", "snapshotOverOld", "invariant", "requireOnChecker", "ensureOnChecker",
                  "requireOnStaticObj", "ensureOnStaticObj", "requireOnClassmObj", "ensureOnClassmObj"):
         for arg in ("dflt", "explicitTrue", "explicitFalse", "slow"):
             try:
